@@ -414,6 +414,23 @@ STMTS = [
     'r = F(*args,\n\x01**kwargs)',
     '\x01# a comment in column zero\nF(*args, **kwargs)',
     'r = [\n\x01  1,\n]\nreturn F(*args, **kwargs)',
+    # every remaining node type of the grammar with a star parameter somewhere below it
+    'return F(*(args + (1,)), **(kwargs | {"z": 1}))',
+    'return -F(*args, **kwargs) + (not G(*args)) * ~len(kwargs)',
+    's = {F(a, **kwargs) for a in args}',
+    'for a in args:\n    if a:\n        continue\n    F(a, *args, **kwargs)\n    break\nelse:\n    G(*args, **kwargs)',
+    'match F(*args, **kwargs):\n    case None | True:\n        G(*args)\n    case 0 | 1 as args:\n        G(*args)\n    case E(args=kwargs):\n        F(**kwargs)\n    case functools.partial(func=args) if args:\n        pass',
+    'match args, kwargs:\n    case (), {}:\n        return G(*args, **kwargs)\n    case [F.attr, *_], {"k": None}:\n        return F(*args, **kwargs)',
+    'def tp2[*Ts, **P](*args: *Ts, **kwargs: P.kwargs):\n    return F(*args, **kwargs)\nreturn tp2(*args, **kwargs)',
+    'class Gen[T: (int, str)]:\n    attr = F(*args, **kwargs)',
+    'type args = int\nF(*args, **kwargs)',
+    'async def co3():\n    async with CM() as args:\n        F(*args, **kwargs)\n    async for kwargs in G(*args):\n        F(**kwargs)',
+    'x = yield F(*args, **kwargs)\ny = yield from G(*args)',
+    'F(*args, **kwargs)[args[0]:kwargs.get("n"):len(args)] = G(*args)',
+    'del args[0], kwargs["k"], F(*args, **kwargs).attr',
+    'if args and kwargs or not args:\n    F(*args, **kwargs)\nelif F(*args) is not G(**kwargs) in args < 1:\n    G(*args, **kwargs)',
+    'global G1, G2\nnonl = 1\ndef inner():\n    nonlocal nonl, kwargs\n    kwargs = {}\nF(*args, **kwargs)',
+    'import os.path, sys as kwargs\nfrom os import (path as args, sep)\nF(*args, **kwargs)',
 ]
 HEADS = [
     ('def w(a, *args, **kwargs):', 'w'),
